@@ -65,6 +65,7 @@ struct Topology
 			case 1: return {node_addr(n, 1, 0)};
 			case 2: return {node_addr(n, 0, 0), node_addr(n, 1, 0)};
 			case 3: return {node_addr(n, 0, 0), node_addr(n, 0, 1)};
+			case 4: return {node_addr(n, 1, 0), node_addr(n, 0, 0)}; // dual-stack, IPv6 first (the IPv4 address is the NATted one)
 			default: return {node_addr(n, 0, 0)};
 		}
 	}
@@ -86,7 +87,7 @@ struct Topology
 		for (auto const& r : c.recs)
 		{
 			if (r.name == "node" && r.a.size() >= 1 && int(t.nodes.size()) < max_nodes)
-			{ NodeSpec n; n.fam = int(std::max(0LL, std::min(3LL, r.a[0]))); t.nodes.push_back(n); }
+			{ NodeSpec n; n.fam = int(std::max(0LL, std::min(4LL, r.a[0]))); t.nodes.push_back(n); }
 		}
 		while (int(t.nodes.size()) < min_nodes) t.nodes.push_back(NodeSpec());
 		int const N = int(t.nodes.size());
@@ -94,8 +95,8 @@ struct Topology
 		{
 			if (r.name == "nat" && r.a.size() >= 2 && r.a[0] >= 0 && r.a[0] < N && r.a[1] >= 0 && r.a[1] < 8)
 			{
-				// NAT only makes sense for v4 nodes in this kit
-				if (t.nodes[std::size_t(r.a[0])].fam == 0 || t.nodes[std::size_t(r.a[0])].fam == 3)
+				// the NAT sits on the routes of the node's IPv4 addresses only; its IPv6 address (dual-stack nodes) stays public
+				if (t.nodes[std::size_t(r.a[0])].fam != 1)
 					t.nodes[std::size_t(r.a[0])].nat_ext = int(r.a[1]);
 			}
 			else if ((r.name == "qout" || r.name == "qin") && r.a.size() >= 4 && r.a[0] >= 0 && r.a[0] < N)
